@@ -216,6 +216,8 @@ def small_problem(draw):
         n = recipe["n"]
     params = {"r": draw(gen.r_values), "eps": draw(gen.eps_values(max(1, min(n, 5)), 10, cheap=False, upto=0.05)),
               "itersLimit": draw(st.sampled_from([3, 4, 5, 6, 8, 10, 10]))}
+    if draw(st.integers(0, 5)) == 0:
+        params["zoom"] = True      # every run of the case is re-targeted to the same sub-box before its first iteration
     return {"recipe": recipe, "params": params}
 
 
@@ -254,6 +256,8 @@ def cases(draw):
         n = recipe["n"]
     iters = st.one_of(st.sampled_from([1, 2, 3, 20, 50, 200]), st.integers(5, 200))
     params = draw(gen.solver_params(max(1, min(n, 5)), 10, iters, cheap=False))
+    if draw(st.integers(0, 5)) == 0:
+        params = dict(params, zoom=True)     # every run of the case is re-targeted to the same sub-box first
     total = draw(st.one_of(st.integers(1, 6), st.integers(5, 60), st.integers(20, 220)))
     case = {"recipe": recipe, "params": params, "batches": draw(gen.compositions(total, max_parts=8)),
             "twice": draw(st.booleans())}
